@@ -89,7 +89,7 @@ def agreement_weighted(ci, wts):
 
     D = np.zeros((n, n))
     for i in range(m):
-        d = dummyvar(ci[i, :].reshape(1, n))
+        d = dummyvar(ci[i, :].reshape(n, 1))
         D += np.dot(d, d.T) * wts[i]
     return D
 
